@@ -380,6 +380,8 @@ structure CryptoOps where
   ecPrivD : EcPriv → Int
   /-- `&ecdsa.PrivateKey{Curve, D}` + `ScalarBaseMult(D.Bytes())`, curve by RecommendedCurve code. -/
   ecPrivBuild : Nat → Int → EcPriv
+  /-- `curve.Params().N` of the curve with that RecommendedCurve code. -/
+  curveOrder : Nat → Int
   ecPubCurve : EcPub → Nat
   /-- `elliptic.Marshal(key.Curve, key.X, key.Y)`. -/
   ecMarshal : EcPub → Bytes
@@ -401,6 +403,13 @@ structure Crypto extends CryptoOps where
   rsaPub_e_int : ∀ k, isInt64 (rsaPubE k) = true
   ecPrivBuild_parts : ∀ k, curveSupported (ecPrivCurve k) = true → ecPrivBuild (ecPrivCurve k) (ecPrivD k) = k
   ecUnmarshal_marshal : ∀ k, curveSupported (ecPubCurve k) = true → ecUnmarshal (ecPubCurve k) (ecMarshal k) = some k
+  /- where `x509.MarshalPKCS8PrivateKey` is assumed not to panic: on RSA keys, on keys the parsers returned,
+     and on an ecdsa key built from a scalar in `[1, n-1]` -/
+  marshalPKCS8_rsa_noPanic : ∀ k m, marshalPKCS8 (.rsa k) ≠ .panic m
+  marshalPKCS8_parsed_noPanic : ∀ bs k m, parsePKCS8 bs = some k → marshalPKCS8 k ≠ .panic m
+  marshalPKCS8_sec1_noPanic : ∀ bs k m, parseSEC1 bs = some k → marshalPKCS8 (.ecdsa k) ≠ .panic m
+  marshalPKCS8_built_noPanic : ∀ c d m, curveSupported c = true → 0 < d → d < curveOrder c →
+    marshalPKCS8 (.ecdsa (ecPrivBuild c d)) ≠ .panic m
 
 abbrev CryptoOps.Priv (C : CryptoOps) := PrivAny C.RsaPriv C.EcPriv
 abbrev CryptoOps.Pub (C : CryptoOps) := PubAny C.RsaPub C.EcPub
@@ -632,7 +641,14 @@ def privRSA (C : CryptoOps) (kb : KeyBlockV) : Res C.RsaPriv :=
 def ecPrivSlot (kb : KeyBlockV) (mat : Material) : Option EcPrivT :=
   if kb.format = fTransparentECPrivateKey then mat.ecPriv else mat.ecdsaPriv
 
+/-- the tail of `PrivateKey.ECDSA` (HEAD): curve switch, range check of the scalar (e2e4a08), key. -/
 def privECDSATail (C : CryptoOps) (tkey : EcPrivT) : Res C.EcPriv :=
+  if !curveSupported tkey.curve then .err .unsupported
+  else if tkey.d ≤ 0 ∨ tkey.d ≥ C.curveOrder tkey.curve then .err .range     -- "Invalid private key scalar"
+  else .ok (C.ecPrivBuild tkey.curve tkey.d)
+
+/-- the same before e2e4a08: any scalar is accepted. -/
+def privECDSATailNoRange (C : CryptoOps) (tkey : EcPrivT) : Res C.EcPriv :=
   if !curveSupported tkey.curve then .err .unsupported
   else .ok (C.ecPrivBuild tkey.curve tkey.d)
 
@@ -683,7 +699,33 @@ def privECDSAOld (C : CryptoOps) (kb : KeyBlockV) : Res C.EcPriv :=
     | .ok mat =>
       match ecPrivSlot kb mat with
       | none => .panic "nil pointer dereference"
-      | some tkey => privECDSATail C tkey
+      | some tkey => privECDSATailNoRange C tkey
+    | .err e => .err e
+    | .panic m => .panic m
+  else .err .unsupported
+
+/-- `PrivateKey.ECDSA` between 414a481 and e2e4a08: nil checks present, no range check of the scalar. -/
+def privECDSANoRange (C : CryptoOps) (kb : KeyBlockV) : Res C.EcPriv :=
+  if kb.format = fECPrivateKey then
+    match getBytes kb with
+    | .ok raw => ofOption (C.parseSEC1 raw)
+    | .err e => .err e
+    | .panic m => .panic m
+  else if kb.format = fPKCS8 then
+    match getBytes kb with
+    | .ok raw =>
+      match C.parsePKCS8 raw with
+      | none => .err .other
+      | some (.ecdsa k) => .ok k
+      | some _ => .err .other
+    | .err e => .err e
+    | .panic m => .panic m
+  else if kb.format = fTransparentECDSAPrivateKey ∨ kb.format = fTransparentECPrivateKey then
+    match getMaterial kb with
+    | .ok mat =>
+      match ecPrivSlot kb mat with
+      | none => .err .other
+      | some tkey => privECDSATailNoRange C tkey
     | .err e => .err e
     | .panic m => .panic m
   else .err .unsupported
@@ -715,6 +757,25 @@ def privPkcs8Pem (C : CryptoOps) (kb : KeyBlockV) : Res Bytes :=
     | .ok der => .ok (C.pem pemPrivateKey der)
     | .err e => .err e
     | .panic m => .panic m                 -- inside the standard library
+  | .err e => .err e
+  | .panic m => .panic m
+
+/-- `CryptoPrivateKey` / `Pkcs8Pem` before e2e4a08 (only the EC branch differs). -/
+def privCryptoNoRange (C : CryptoOps) (kb : KeyBlockV) : Res C.Priv :=
+  if kb.format = fECPrivateKey ∨ kb.format = fTransparentECPrivateKey ∨ kb.format = fTransparentECDSAPrivateKey then
+    match privECDSANoRange C kb with
+    | .ok k => .ok (.ecdsa k)
+    | .err e => .err e
+    | .panic m => .panic m
+  else privCrypto C kb
+
+def privPkcs8PemNoRange (C : CryptoOps) (kb : KeyBlockV) : Res Bytes :=
+  match privCryptoNoRange C kb with
+  | .ok k =>
+    match C.marshalPKCS8 k with
+    | .ok der => .ok (C.pem pemPrivateKey der)
+    | .err e => .err e
+    | .panic m => .panic m
   | .err e => .err e
   | .panic m => .panic m
 
@@ -894,7 +955,7 @@ def run (C : CryptoOps) (a : Accessor) (r : GetResp) : Res Out :=
   | .getPub => resAs (getPublicKey C r) pubOut
   | .getPemPub => resAs (getPemPublicKey C r) (fun _ => .plain)
 
-/-- the accessors as they were before 414a481 (only the three repaired ones differ). -/
+/-- the accessors as they were before 414a481 and e2e4a08 (only the repaired ones differ). -/
 def runOld (C : CryptoOps) (a : Accessor) (r : GetResp) : Res Out :=
   let kb? := r.object.bind Obj.keyBlock?
   match a with
@@ -902,6 +963,7 @@ def runOld (C : CryptoOps) (a : Accessor) (r : GetResp) : Res Out :=
   | .kbAttrs => match kb? with | some kb => resAs (getAttributesOld kb) .count | none => .err .unsupported
   | .pubECDSA => match r.object with | some (.publicKey kb) => resAs (pubECDSAOld C kb) (fun _ => .ecdsa) | _ => .err .unsupported
   | .privECDSA => match r.object with | some (.privateKey kb) => resAs (privECDSAOld C kb) (fun _ => .ecdsa) | _ => .err .unsupported
+  | .privPem => match r.object with | some (.privateKey kb) => resAs (privPkcs8PemNoRange C kb) (fun _ => .plain) | _ => .err .unsupported
   | a => run C a r
 
 /-! ## 5. The register builders (kmipclient/register.go) -/
@@ -963,7 +1025,7 @@ def rawKeyBytes (priv : Bool) (der : Bytes) (alg bitlen format : Nat) : Obj :=
 def verGE13 (ver : Nat × Nat) : Bool :=
   if ver.1 ≠ 1 then ver.1 > 1 else ver.2 ≥ 3
 
-/-- `RsaPrivateKey`. -/
+/-- `RsaPrivateKey` (HEAD: d693174 refuses anything but two primes in the transparent format). -/
 def registerRsaPriv (C : CryptoOps) (kf : Nat) (key : C.RsaPriv) : Res Obj :=
   let parts := C.rsaPrivParts key
   let bitlen := bitLen parts.n
@@ -978,7 +1040,29 @@ def registerRsaPriv (C : CryptoOps) (kf : Nat) (key : C.RsaPriv) : Res Obj :=
       | .panic m => .panic m
     else if f = kfTransparent then
       match parts.primes with
-      | p :: q :: _ =>                       -- key.Primes[0], key.Primes[1]
+      | [p, q] =>                            -- len(key.Primes) == 2; key.Primes[0], key.Primes[1]
+        .ok (.privateKey (plainKB fTransparentRSAPrivateKey 0 algRSA bitlen
+          { rsaPriv := some { modulus := parts.n, d := some parts.d, e := some parts.e, p := some p, q := some q,
+                              dp := parts.dp, dq := parts.dq, qinv := parts.qinv } }))
+      | _ => .err .other                     -- "requires exactly two primes"
+    else .panic "Unexpected key format"
+
+/-- `RsaPrivateKey` before d693174: `key.Primes[0]`, `key.Primes[1]` whatever the number of primes. -/
+def registerRsaPrivOld (C : CryptoOps) (kf : Nat) (key : C.RsaPriv) : Res Obj :=
+  let parts := C.rsaPrivParts key
+  let bitlen := bitLen parts.n
+  if bitlen > maxInt32 then .err .range
+  else
+    let f := rsaPrivFormat kf
+    if f = kfPKCS1 then .ok (rawKeyBytes true (C.marshalPKCS1Priv key) algRSA bitlen fPKCS1)
+    else if f = kfPKCS8 then
+      match C.marshalPKCS8 (.rsa key) with
+      | .ok der => .ok (rawKeyBytes true der algRSA bitlen fPKCS8)
+      | .err e => .err e
+      | .panic m => .panic m
+    else if f = kfTransparent then
+      match parts.primes with
+      | p :: q :: _ =>
         .ok (.privateKey (plainKB fTransparentRSAPrivateKey 0 algRSA bitlen
           { rsaPriv := some { modulus := parts.n, d := some parts.d, e := some parts.e, p := some p, q := some q,
                               dp := parts.dp, dq := parts.dq, qinv := parts.qinv } }))
@@ -1255,12 +1339,16 @@ def deRsaPriv (bs : Bytes) : Option RsaPriv :=
 
 def serEcPriv (k : EcPriv) : Bytes := un k.crv.val ++ un k.d
 
+/-- byte size of the order of the curve (P-224, P-256, P-384, P-521). -/
+def orderBytes (i : Fin 4) : Nat := if i.val = 0 then 28 else if i.val = 1 then 32 else if i.val = 2 then 48 else 66
+
+/-- the parsers only return scalars that fit the curve size. -/
 def deEcPriv (bs : Bytes) : Option EcPriv :=
   match takeUn bs with
   | some (c, r1) =>
     if h : c < 4 then
       match takeUn r1 with
-      | some (d, []) => some { crv := ⟨c, h⟩, d := d }
+      | some (d, []) => if d < 256 ^ orderBytes ⟨c, h⟩ then some { crv := ⟨c, h⟩, d := d } else none
       | _ => none
     else none
   | none => none
@@ -1317,9 +1405,6 @@ def parsePKCS8 (bs : Bytes) : Option (PrivAny RsaPriv EcPriv) :=
   | [5] => some .other
   | _ => none
 
-/-- byte size of the order of the curve (P-224, P-256, P-384, P-521). -/
-def orderBytes (i : Fin 4) : Nat := if i.val = 0 then 28 else if i.val = 1 then 32 else if i.val = 2 then 48 else 66
-
 /-- like the real `MarshalPKCS8PrivateKey`, panics on an EC key whose scalar does not fit the curve size. -/
 def marshalPKCS8 : PrivAny RsaPriv EcPriv → Res Bytes
   | .rsa k => .ok (3 :: serRsaPriv k)
@@ -1339,6 +1424,17 @@ def marshalPKIX : PubAny RsaPub EcPub → Option Bytes
   | .rsa k => some (7 :: serRsaPub k)
   | .ecdsa k => some (8 :: serEcPub k)
   | .other => some [9]
+
+/-- the orders of P-224, P-256, P-384, P-521 (FIPS 186-4), by RecommendedCurve code. -/
+def curveOrder (c : Nat) : Int :=
+  if c = 4 then 26959946667150639794667015087019625940457807714424391721682722368061
+  else if c = 7 then 115792089210356248762697446949407573529996955224135760342422259061068512044369
+  else if c = 10 then 39402006196394479212279040100143613805079739270465446667946905279627659399113263569398956308152294913554433653942643
+  else if c = 13 then 6864797660130609714981900799081393217269435300143305409394463459185543183397655394245057746333217197532963996371363321113864768612440380340372808892707005449
+  else 0
+
+def marshalSEC1 (k : EcPriv) : Option Bytes :=
+  if k.d ≥ 256 ^ orderBytes k.crv then none else some (tagged 6 (serEcPriv k))
 
 def rsaPrivParts (k : RsaPriv) : RsaParts :=
   { n := k.n, e := 65537, d := k.d, primes := [(k.p : Int), (k.q : Int)] }
@@ -1360,7 +1456,7 @@ def ops : CryptoOps where
   parsePKCS8 := parsePKCS8
   marshalPKCS8 := marshalPKCS8
   parseSEC1 bs := (untag 6 bs).bind deEcPriv
-  marshalSEC1 k := some (tagged 6 (serEcPriv k))
+  marshalSEC1 := marshalSEC1
   parsePKIX := parsePKIX
   marshalPKIX := marshalPKIX
   parseCert bs := untag 10 bs
@@ -1374,6 +1470,7 @@ def ops : CryptoOps where
   ecPrivCurve k := curveCode k.crv
   ecPrivD k := k.d
   ecPrivBuild c d := { crv := curveIx c, d := d.natAbs }
+  curveOrder := curveOrder
   ecPubCurve k := curveCode k.crv
   ecMarshal k := point 4 k
   ecUnmarshal c bs := unpoint 4 c bs
